@@ -181,6 +181,9 @@ func (in *c20Inner) ServeHTTP(w http.ResponseWriter, req *http.Request) {
 type c20MW struct {
 	Kind      string `json:"kind"`
 	Intervene bool   `json:"intervene,omitempty"`
+	// non-intervening rate limiter that starts with a tight limit which is raised in place (RateSet.Add on the set the
+	// limiter holds) after its source has been seen once
+	Raised bool `json:"raised,omitempty"`
 	Sticky    bool   `json:"sticky,omitempty"`
 	Retry     string `json:"retry,omitempty"`            // buffer: a retry expression that is false for the response the handler gives
 	MaxReq    int64  `json:"max_request_body,omitempty"` // buffer: request-size limit equal to the size of the body sent (not exceeded)
@@ -225,6 +228,9 @@ func c20Build(specs []c20MW, inner http.Handler) (http.Handler, error) {
 			rs := ratelimit.NewRateSet()
 			if sp.Intervene && sp.Fallback != "nosource" {
 				_ = rs.Add(time.Hour, 1, 1)
+			} else if sp.Raised {
+				_ = rs.Add(time.Hour, 1, 1)
+				c20RaisedSets = append(c20RaisedSets, rs)
 			} else {
 				// generous rates over periods from a second down to a millisecond (any period above 0 is legal)
 				_ = rs.Add([]time.Duration{time.Second, 50 * time.Millisecond, 10 * time.Millisecond, time.Millisecond}[i%4], 100000, 100000)
@@ -325,6 +331,9 @@ var c20StrictExtractor = utils.ExtractorFunc(func(req *http.Request) (string, in
 	return req.Header.Get("X-Src"), 1, nil
 })
 
+// c20RaisedSets: the rate sets of the current stack that start tight and are raised in place once the source is known.
+var c20RaisedSets []*ratelimit.RateSet
+
 var c20Kinds = []string{"stream", "trace", "connlimit", "ratelimit", "breaker", "roundrobin", "rebalancer", "buffer"}
 var c20Docs = map[string]int{"ratelimit": 429, "connlimit": 429, "breaker": 503, "roundrobin": 500, "rebalancer": 500, "buffer": 413}
 
@@ -364,6 +373,15 @@ func c20Stacks(c *Ctx) {
 				mode = "intervening:" + specs[iv].Kind
 			}
 		}
+		raised := false
+		if mode == "transparent" && r.IntN(3) == 0 {
+			for k := range specs {
+				if specs[k].Kind == "ratelimit" {
+					specs[k].Raised = true
+					raised = true
+				}
+			}
+		}
 		hasBuffer := false
 		for _, sp := range specs {
 			if sp.Kind == "buffer" {
@@ -394,13 +412,20 @@ func c20Stacks(c *Ctx) {
 				script.Kind = "hijackfb"
 			}
 		}
+		if recorderMode && raised { // (recorder-mode stacks are driven by a single in-process request: nothing to raise)
+			for k := range specs {
+				specs[k].Raised = false
+			}
+			raised = false
+		}
 		for n := r.IntN(6); n > 0; n-- {
 			script.Headers = append(script.Headers, [2]string{pick(r, []string{"X-App", "X-Multi", "Cache-Control", "Etag", "Content-Language", "Set-Cookie"}), randToken(r, 1+r.IntN(10))})
 		}
 		if script.Kind == "plain" && script.Status != 0 && r.IntN(6) == 0 && !recorderMode {
 			script.Early = true // (a ResponseRecorder keeps the first status it is given, so no 1xx in recorder mode)
 		}
-		if mode == "transparent" && (script.Kind == "plain" || script.Kind == "flush") {
+		if mode == "transparent" && !raised && (script.Kind == "plain" || script.Kind == "flush") {
+			// (not when a limit is raised in place: the first, pre-driving request answers 200 whatever the script's status)
 			// buffers configured with a retry expression that has no reason to fire for this handler's answer
 			st := script.Status
 			if st == 0 {
@@ -456,6 +481,7 @@ func c20Stacks(c *Ctx) {
 		freeze(baseTime.Add(time.Duration(r.Int64N(1e9))))
 		defer unfreeze()
 		inner := &c20Inner{invoked: map[string]int{}, script: script, gotFirst: make(chan struct{}, 1), gotHead: make(chan struct{}, 1), hold: make(chan struct{}), entered: make(chan struct{}, 1)}
+		c20RaisedSets = nil
 		h, err := c20Build(specs, inner)
 		desc := map[string]any{"stack": specs, "mode": mode, "script": script}
 		if err != nil {
@@ -498,6 +524,19 @@ func c20Stacks(c *Ctx) {
 			return resp, append(out, rest...), err
 		}
 		c.Eval()
+		if raised {
+			// the source is seen once under the tight limit (1 per hour), then the limit is raised in place: from then on the
+			// limiter has no reason to intervene
+			if resp, _, err := do("pre", "ok", nil, nil); err != nil || resp.StatusCode != 200 {
+				c.Violation("predrive", sfmt("first request of a source under a limit of 1 per hour failed: %v (status %d)", err, func() int { if resp != nil { return resp.StatusCode }; return 0 }()), desc)
+				return
+			}
+			for _, rs := range c20RaisedSets {
+				_ = rs.Add(time.Hour, 100000, 100000)
+			}
+			advance(time.Minute) // (a raised limit refills at the new rate from now on: a minute is worth 1666 requests)
+			c.Count("stacks_with_a_limit_raised_in_place", 1)
+		}
 		// history: a few requests whose handler aborts (panic(http.ErrAbortHandler)) went through the stack before
 		for k := r.IntN(4); k > 0 && iv < 0; k-- {
 			_, _, _ = do(sfmt("abort%d", k), "abort", nil, nil)
